@@ -71,6 +71,7 @@ def Out.IsPos : Out S → Prop
   | .cont b => Pos b
   | .done v => Pos v
 
+omit [ScoreLaws S] in
 theorem iter_pos (body : Bytes → S → Out S) (hb : ∀ a b, Pos b → (body a b).IsPos) :
     ∀ (l : List Bytes) (b : S), Pos b → (iter body l b).IsPos := by
   intro l
@@ -158,11 +159,11 @@ theorem evalTerm_nonneg (sp : Spec) (hh : qNonneg sp.hintMiss = true) (ht : qNon
     (hm : qNonneg sp.intentMiss = true) (ri : RuneInfo) (c : Cmd) (text : Bytes) (x : Ctx) (t : CTerm) (hw : termWF t = true) :
     Nonneg (evalTerm sp ri c text x t : S) := by
   cases t with
-  | hint q => exact ite_nonneg hw hh
-  | term l q => exact ite_nonneg hw ht
-  | context q => exact ite_nonneg hw hc
+  | hint q => simp only [evalTerm, calcHint]; exact ite_nonneg hw hh
+  | term l q => simp only [evalTerm, calcTerm]; exact ite_nonneg hw ht
+  | context q => simp only [evalTerm, calcContext]; exact ite_nonneg hw hc
   | intent =>
-    unfold evalTerm getIntent
+    simp only [evalTerm, getIntent]
     split
     · exact ofQ_nonneg' hn
     · exact ite_nonneg hi hm
